@@ -420,3 +420,110 @@ func evalC18Moved(c *rt.Case) (bool, string, string, error) {
 	bad := n != len(fp) || a.convex != b.convex || a.cw != b.cw || a.rect != b.rect || a.nseg != b.nseg
 	return bad, fmt.Sprintf("convex=%v cw=%v rect=%v nseg=%d", b.convex, b.cw, b.rect, b.nseg), fmt.Sprintf("convex=%v cw=%v rect=%v nseg=%d", a.convex, a.cw, a.rect, a.nseg), nil
 }
+
+// c18RectSeries: a Rect is itself a Series (and may be the exterior of a
+// Poly). Every rectangle over the 4x4 lattice (zero extents included):
+// positions, segments, flags, rectangle and Search must be those of the
+// five-position ring through its corners, also after Move; and a Poly whose
+// exterior is the Rect answers every probe as the Poly built from that ring.
+var c18RectMoves = [][2]float64{{0, 0}, {3, -5}, {0.1, 0.3}}
+
+// rectSeriesOne checks one rectangle under one offset; evals counts comparisons.
+func rectSeriesOne(rc geometry.Rect, mi int) (class, exp, got string, evals int64) {
+	H := lat.Half(4, -1)
+	d := c18RectMoves[mi]
+	rcm := rc.Move(d[0], d[1])
+	corners := []geometry.Point{{X: rcm.Min.X, Y: rcm.Min.Y}, {X: rcm.Max.X, Y: rcm.Min.Y}, {X: rcm.Max.X, Y: rcm.Max.Y}, {X: rcm.Min.X, Y: rcm.Max.Y}, {X: rcm.Min.X, Y: rcm.Min.Y}}
+	ring := geometry.NewPoly(corners, nil, idxNone).Exterior
+	var ser geometry.Series = rcm
+	ao, bo := observeSeries(ser), observeSeries(ring)
+	evals++
+	bad := ser.NumPoints() != 5 || ao.nseg != bo.nseg || ao.convex != bo.convex || ao.cw != bo.cw || ao.rect != bo.rect
+	if !bad {
+		for k := 0; k < 5; k++ {
+			if ser.PointAt(k) != ring.PointAt(k) {
+				bad = true
+			}
+		}
+		for k := range ao.segs {
+			if ao.segs[k] != bo.segs[k] {
+				bad = true
+			}
+		}
+	}
+	if bad {
+		return "rect-as-series", fmt.Sprintf("as the ring through its corners: %+v", bo), fmt.Sprintf("%+v", ao), evals
+	}
+	// Search: query rectangles over the half-step lattice
+	for _, q0 := range H {
+		for _, q1 := range []exact.P{q0, {X: q0.X + 3, Y: q0.Y + 2}} {
+			q := geometry.Rect{Min: geometry.Point{X: ident.pt(q0).X + d[0], Y: ident.pt(q0).Y + d[1]}, Max: geometry.Point{X: ident.pt(q1).X + d[0], Y: ident.pt(q1).Y + d[1]}}
+			var g1, g2 []int
+			ser.Search(q, func(_ geometry.Segment, i int) bool { g1 = append(g1, i); return true })
+			for i := 0; i < 4; i++ {
+				if ring.SegmentAt(i).Rect().IntersectsRect(q) {
+					g2 = append(g2, i)
+				}
+			}
+			evals++
+			if fmt.Sprint(g1) != fmt.Sprint(g2) {
+				return "rect-as-series", fmt.Sprintf("Search(%v) = %v", q, g2), fmt.Sprint(g1), evals
+			}
+		}
+	}
+	// Poly with the Rect as exterior == Poly built from the corner ring
+	p1 := &geometry.Poly{Exterior: rcm}
+	p2 := geometry.NewPoly(corners, nil, idxNone)
+	for _, h := range H {
+		pt := geometry.Point{X: ident.pt(h).X + d[0], Y: ident.pt(h).Y + d[1]}
+		l := geometry.NewLine([]geometry.Point{pt, {X: pt.X + 1, Y: pt.Y + 0.5}}, idxNone)
+		q := geometry.Rect{Min: pt, Max: geometry.Point{X: pt.X + 0.5, Y: pt.Y + 1}}
+		g1 := []bool{p1.ContainsPoint(pt), p1.IntersectsPoint(pt), p1.ContainsLine(l), p1.IntersectsLine(l), p1.ContainsRect(q), p1.IntersectsRect(q), p1.ContainsPoly(p2), p2.ContainsPoly(p1), p1.IntersectsPoly(p2), l.ContainsPoly(p1), l.IntersectsPoly(p1)}
+		g2 := []bool{p2.ContainsPoint(pt), p2.IntersectsPoint(pt), p2.ContainsLine(l), p2.IntersectsLine(l), p2.ContainsRect(q), p2.IntersectsRect(q), p2.ContainsPoly(p2), p2.ContainsPoly(p2), p2.IntersectsPoly(p2), l.ContainsPoly(p2), l.IntersectsPoly(p2)}
+		evals += int64(len(g1))
+		if fmt.Sprint(g1) != fmt.Sprint(g2) {
+			return "rect-exterior-poly", fmt.Sprintf("probe %v: %v", pt, g2), fmt.Sprint(g1), evals
+		}
+	}
+	return "", "", "", evals
+}
+
+func c18RectSeries(r *rt.Run) {
+	L := lat.Lattice(4, -1)
+	w := r.Worker()
+	cnt := 0
+	for _, a := range L {
+		for _, b := range L {
+			if a.X > b.X || a.Y > b.Y {
+				continue
+			}
+			cnt++
+			rc := geometry.Rect{Min: ident.pt(a), Max: ident.pt(b)}
+			for mi := range c18RectMoves {
+				class, exp, got, ev := rectSeriesOne(rc, mi)
+				w.States++
+				w.Nontriv++
+				w.Evals += ev
+				if class != "" {
+					mi := mi
+					w.Fail(class, func() (rt.Case, string, string) {
+						return rt.Case{Kind: "rect-series", Op: fmt.Sprint(mi), A: &rt.G{K: "rect", P: [][2]float64{{rc.Min.X, rc.Min.Y}, {rc.Max.X, rc.Max.Y}}}}, exp, got
+					})
+				}
+			}
+		}
+	}
+	r.Bounds["rect_series"] = cnt
+	w.Flush()
+}
+
+func evalC18Rect(c *rt.Case) (bool, string, string, error) {
+	var mi int
+	fmt.Sscan(c.Op, &mi)
+	if mi < 0 || mi >= len(c18RectMoves) || c.A == nil || len(c.A.P) != 2 {
+		return false, "", "", fmt.Errorf("malformed case")
+	}
+	rc := geometry.Rect{Min: geometry.Point{X: c.A.P[0][0], Y: c.A.P[0][1]}, Max: geometry.Point{X: c.A.P[1][0], Y: c.A.P[1][1]}}
+	class, exp, got, _ := rectSeriesOne(rc, mi)
+	return class != "", exp, got, nil
+}
